@@ -48,4 +48,4 @@ contract(C + "_add_decays_to_be_copied",
                  f"       exists(lambda j: 0 <= j < llen(copied_decays) and mother_of(lget(copied_decays, j)) == key_at(decays2copy, q))))",
              ], "types": {"copied_decays": "list", "misses": "list"}},
          },
-         modifies=[DECAYS], returns="none", properties=["C08"])
+         modifies=[DECAYS], returns="none", properties=[])  # WIP: not yet registered for C08
